@@ -17,7 +17,7 @@ Next == UNCHANGED c
 RoundTrip == RoundTrips(c.kind, c.x)
 \* sanity (non-vacuity): every base object is accepted in its canonical encoding
 CanonicalAccepted == (c.site = "top" /\ c.form = "canonical") => Verdict(c)
-SizeIsLength == LET d == Decode(c.kind, c.x) IN d.ok => SizeOf(c.kind, d.v) = Len(c.x)
+SizeIsLength == LET d == Decode(c.kind, c.x) IN (d.ok /\ c.kind \in {"txbin", "block"}) => SizeOf(c.kind, d.v) = Len(c.x)
 
 Out(cs) == [id |-> cs.id, kind |-> cs.kind, site |-> cs.site, form |-> cs.form, x |-> cs.x, ok |-> Verdict(cs)]
 Tables == [legacySigned |-> LegacySigned, dynSigned |-> DynSigned, legacyHashed |-> LegacyHashed, dynHashed |-> DynHashed,
